@@ -71,4 +71,5 @@ pub mod store;
 pub mod tals;
 pub mod utils;
 pub mod validity;
+#[cfg(routinator_verif)] pub mod verif;
 
